@@ -241,6 +241,13 @@ end
 def walkFail (hooked : List String) (t : Ty) : Option Failure :=
   if walkOk hooked (fun _ => true) t then none else some .panic
 
+/-- `ast.TypeName` (used for trail messages by retype_object / retype_field) dereferences the
+    kind pointer of references, scalars and arrays, following arrays down -/
+def typeNameOk : Ty → Bool
+  | .array e _ => typeNameOk e
+  | .bad k _ => !(k == "ref" || k == "scalar" || k == "array")
+  | _ => true
+
 /-- `VisitSchema` when `OnSchema` is nil: the entry point type is visited first, then every
     object in order; the new schema is rebuilt with `AddObject` = `Objects.Set(object.Name, …)`,
     so an object whose new name collides with an earlier one REPLACES it at the earlier
